@@ -51,8 +51,8 @@ def _aux(task):
     try:
         if kind == "cover":
             depth = c.cover_depth or c.bmc_depth
-            found, secs = prove.bmc(c, c.covers, depth, timeout_s=c.timeout_s)
-            return kind, ci, {n: (v[0] if v else None) for n, v in found.items()}, time.time() - t0, ""
+            found, secs = prove.bmc(c, c.covers, depth, timeout_s=max(c.timeout_s, 60) * 4)
+            return kind, ci, {n: ("timeout" if v == "timeout" else (v[0] if v else None)) for n, v in found.items()}, time.time() - t0, ""
         if kind == "cosim":
             cycles = c.cosim_cycles or (64 if c.tier == "quick" else 1000)
             ok, n, msg = sim.cosim(c, cycles, c.seed)
@@ -163,6 +163,7 @@ def triage(c, failed, prop, tier):
         except Exception:
             found = {}
         best = None
+        found = {n: (None if v == "timeout" else v) for n, v in found.items()}
         for n, v in found.items():
             if v is not None and (best is None or v[0] < best[1][0]):
                 best = (n, v)
@@ -253,11 +254,11 @@ def main(prop, tier, seed):
         aux_res = [_aux(t) for t in aux]
         results = prove.solve_all(obs, timeout_s=timeout_s, procs=1)
     else:
-        with ctx.Pool(min(8, max(1, len(aux)))) as apool:
+        with ctx.Pool(min(8 if prove.default_procs() >= 16 else 3, max(1, len(aux)))) as apool:
             ar = apool.map_async(_aux, aux)
             results = prove.solve_all(obs, timeout_s=timeout_s)
             try:
-                aux_res = ar.get(timeout=timeout_s * 3 + 120)
+                aux_res = ar.get(timeout=timeout_s * 5 + 300)
             except mp.TimeoutError:
                 aux_res = []
                 problems.append(("aux-timeout", prop, "cover/cosim tasks did not finish"))
@@ -278,7 +279,9 @@ def main(prop, tier, seed):
             c.log["covers"] = val
             for n, t in val.items():
                 covers_total += 1
-                if t is None:
+                if t == "timeout":
+                    undecided.append(f"cover {c.name}/cover/{n}: BMC time budget exhausted before depth {c.cover_depth or c.bmc_depth}")
+                elif t is None:
                     cover_fail.append(f"cover {c.name}/cover/{n} not reachable within {c.cover_depth or c.bmc_depth} steps (vacuity guard)")
                 else:
                     covers_hit += 1
@@ -316,7 +319,7 @@ def main(prop, tier, seed):
         global _FAILED
         _FAILED = {ci: (fl, prop, tier) for ci, fl in failed.items()}
         if len(failed) > 1 and os.environ.get("HWV_PROCS") != "1":
-            with ctx.Pool(min(8, len(failed))) as tpool:
+            with ctx.Pool(min(8 if prove.default_procs() >= 16 else 3, len(failed))) as tpool:
                 tres = tpool.map(_triage_task, list(failed))
         else:
             tres = [_triage_task(ci) for ci in failed]
